@@ -30,12 +30,17 @@ OPS = {
     "ThenFF": ("->", "tff", "tff"),
     "ThenR": ("->", "tr", "tr"),
 }
+# Option flavour: probe names per op (sync only)
+OPT_PROBE = {"Src": "srco", "Map": "p", "AndThen": "qo", "OrElse": "ro", "Inspect": "io", "Then": "to", "Or": "alto", "Filter": "fo",
+             "ThenV": "tvo", "ThenVV": "tvv", "ThenR": "tro", "ThenB": "tbo"}
+OPS_EXTRA = {"Filter": ("?>", "fo", None), "ThenB": ("->", "tbo", None)}
 WRAP = {
     "WAndThen": ("=>", "ThenV"),
     "WMap": ("|>", "ThenVV"),
     "WOrElse": ("<=", "ThenF"),
     "WMapErr": ("!>", "ThenFF"),
     "WInspect": ("??", "ThenR"),
+    "WFilter": ("?>", "ThenB"),
 }
 SYNC_ONLY_OPS = {"Or", "WMap", "ThenVV"}
 
@@ -62,6 +67,7 @@ class Prog:
         self.handler = None  # (id, pos)
         self.joiner = "None"
         self.handler_block = False
+        self.opt = False
         self.tags = []
         self.next_id = 1
 
@@ -86,11 +92,18 @@ class Prog:
             cap_in_wrap(st, False) for b in self.branches for st in b["steps"])
 
 
+def op_spelling(op):
+    return (OPS.get(op) or OPS_EXTRA[op])[0]
+
+
 def render_operand(p, a, asy, names):
-    probe = OPS[a.op][2 if asy else 1]
+    if p.opt:
+        probe = OPT_PROBE[a.op]
+    else:
+        probe = OPS[a.op][2 if asy else 1]
     call = "%s(%d)" % (probe, a.id)
     if a.cap:
-        snaps = "".join(" snap(%d, &%s);" % (sid, names[b]) for sid, b in a.snaps)
+        snaps = "".join(" %s(%d, &%s);" % ("snapo" if p.opt else "snap", sid, names[b]) for sid, b in a.snaps)
         return "{ cap(%d);%s %s }" % (a.cap, snaps, call)
     return call
 
@@ -108,7 +121,7 @@ def render_acts(p, acts, asy, names, first_tilde, last_in_step=True):
             close = "" if (is_last and not a.explicit_close) else " <<<"
             out.append("%s%s >>> %s%s" % (tilde, opr, inner, close))
         else:
-            out.append("%s%s %s" % (tilde, OPS[a.op][0], render_operand(p, a, asy, names)))
+            out.append("%s%s %s" % (tilde, op_spelling(a.op), render_operand(p, a, asy, names)))
     return " ".join(out)
 
 
@@ -149,13 +162,13 @@ def render_body(p, kind, hk):
     if p.handler and hk:
         hid, pos = p.handler[0], p.handler[1]
         n = len(p.branches)
-        ty = "Rv" if hk == "then" else "Val"
+        ty = ("Ov" if p.opt else "Rv") if hk == "then" else "Val"
         params = ", ".join("a%d: %s" % (i, ty) for i in range(n))
         args = ", ".join("&a%d" % i for i in range(n))
         if asy:
             body = {"map": "hv", "and_then": "hra", "then": "hva"}[hk]
         else:
-            body = {"map": "hv", "and_then": "hr", "then": "hv"}[hk]
+            body = {"map": "hv", "and_then": "hro" if p.opt else "hr", "then": "hv"}[hk]
         h = "hmk(%d, |%s| %s(%d, &[%s]))" % (hid, params, body, hid, args)
         if p.handler_block:
             # a handler may be any expression, also one spelled as a block
@@ -183,7 +196,7 @@ def hk_for(p, kind):
 
 def kinds_for(p, want_async=True):
     ks = list(SYNC_KINDS)
-    if want_async and not p.sync_only():
+    if want_async and not p.sync_only() and not p.opt:
         ks += ASYNC_KINDS
     if p.joiner == "Lazy":
         ks = [k for k in ks if k in ("join", "try_join", "join_async", "try_join_async")]
@@ -213,8 +226,8 @@ def render_prog(p, want_async=True, skip=()):
         brs.append("Branch { named: %s, steps: &[%s] }" % ("true" if b["named"] else "false", steps))
     hnd = "None" if not p.handler else "Some(Hnd { id: %d, pos: %d })" % p.handler
     text = render_body(p, "join", hk_for(p, "join"))
-    lines.append("    pub static PROG: Prog = Prog { id: %d, branches: &[%s], handler: %s, joiner: Joiner::%s, max_id: %d, tags: %s, text: %s };" % (
-        p.id, ", ".join(brs), hnd, p.joiner, p.next_id, rust_str(",".join(p.tags)), rust_str(text)))
+    lines.append("    pub static PROG: Prog = Prog { id: %d, branches: &[%s], handler: %s, joiner: Joiner::%s, opt: %s, max_id: %d, tags: %s, text: %s };" % (
+        p.id, ", ".join(brs), hnd, p.joiner, "true" if p.opt else "false", p.next_id, rust_str(",".join(p.tags)), rust_str(text)))
     cases = []
     for kind in kinds_for(p, want_async):
         if (p.id, kind) in skip:
@@ -339,6 +352,60 @@ def gen_rand_prog(pid, rng, max_branches=5, max_steps=4):
     return p
 
 
+def gen_opt_ops(p, rng, n, depth=0, caps=0.0, names_avail=None, step=0):
+    acts = []
+    for _ in range(n):
+        choices = ["Map", "AndThen", "OrElse", "Inspect", "Then", "Or", "Filter", "Filter"]
+        if depth < 2:
+            choices += ["WAndThen", "WMap", "WInspect", "WFilter"]
+        op = rng.choice(choices)
+        if op in WRAP:
+            first = WRAP[op][1]
+            inner = [mk_act(p, rng, first, caps, names_avail, step)]
+            if op == "WAndThen":
+                inner += gen_opt_ops(p, rng, rng.randint(0, 2), depth + 1, caps, names_avail, step)
+            elif op == "WMap" and rng.random() < 0.4:
+                inner.append(mk_act(p, rng, first, caps, names_avail, step))
+            acts.append(Act(op, 0, inner=inner, explicit_close=rng.random() < 0.6))
+        else:
+            acts.append(mk_act(p, rng, op, caps, names_avail, step))
+    return acts
+
+
+def gen_opt_prog(pid, rng, max_branches=4, max_steps=4):
+    """Option flavour: `Option<Val>` values (a failure has no payload), sync and thread kinds."""
+    p = Prog(pid)
+    p.opt = True
+    p.tags = ["rand", "opt"]
+    n = rng.randint(1, max_branches)
+    named = [rng.random() < 0.35 for _ in range(n)]
+    names_avail = [i for i, x in enumerate(named) if x]
+    caps = rng.choice([0.0, 0.3])
+    for bi in range(n):
+        d = rng.randint(1, max_steps)
+        steps = []
+        for k in range(d):
+            acts = []
+            if k == 0:
+                acts.append(Act("Src", p.nid()))
+                acts += gen_opt_ops(p, rng, rng.randint(0, 3), 0, caps, names_avail, k)
+            else:
+                acts += gen_opt_ops(p, rng, rng.randint(1, 3), 0, caps, names_avail, k)
+            steps.append(acts)
+        p.branches.append({"named": named[bi], "mut": rng.random() < 0.3, "steps": steps})
+    if any(a.cap for a in p.all_acts()):
+        p.tags.append("cap")
+    if any(a.snaps for a in p.all_acts()):
+        p.tags.append("names")
+    if any(a.op in WRAP for a in p.all_acts()):
+        p.tags.append("wrap")
+    if rng.random() < 0.5:
+        p.handler = (p.nid(), rng.randint(0, n))
+        p.handler_block = rng.random() < 0.5
+        p.tags.append("handler")
+    return p
+
+
 def gen_joiner_prog(pid, rng):
     """Programs exercising custom_joiner / lazy_branches / transpose_results(false)."""
     p = Prog(pid)
@@ -389,9 +456,9 @@ def build_corpus(tier, seed):
                 pid += 1
         return progs
     if tier == "quick":
-        sync_n, sync_d, asy_n, asy_d, nrand, njoin = 4, 3, 3, 2, 110, 40
+        sync_n, sync_d, asy_n, asy_d, nrand, njoin, nopt = 4, 3, 3, 2, 110, 40, 50
     else:
-        sync_n, sync_d, asy_n, asy_d, nrand, njoin = 4, 4, 3, 3, 500, 160
+        sync_n, sync_d, asy_n, asy_d, nrand, njoin, nopt = 4, 4, 3, 3, 500, 160, 250
     for prof in profiles(sync_n, sync_d):
         want_async = len(prof) <= asy_n and max(prof) <= asy_d
         progs.append((gen_profile_prog(pid, prof, rng), want_async))
@@ -401,6 +468,9 @@ def build_corpus(tier, seed):
         pid += 1
     for _ in range(njoin):
         progs.append((gen_joiner_prog(pid, rng), True))
+        pid += 1
+    for _ in range(nopt):
+        progs.append((gen_opt_prog(pid, rng), False))
         pid += 1
     return progs
 
